@@ -392,3 +392,9 @@ LEVEL_NOTE = ('Trusted: Lean kernel + standard axioms; networkx replaced by expl
               'dependants) is reproduced by the model and reported as KNOWN-FINDING. Completeness of the layering '
               '(every node of an acyclic graph is layered) is checked by the oracle, not proved.')
 TECHNIQUE = 'Lean 4 proofs about Kahn layering and the step phase + trace/graph-operation correspondence'
+
+
+# structural updates issued by steps: a dependent step sees what its dependencies did in this phase
+from harness import structstep as _ss          # noqa: E402
+from harness.mixins import add_family as _add_family   # noqa: E402
+_add_family(globals(), _ss, 'structstep', lambda case, impl: _ss.oracle(case, impl, who=('census',)))
